@@ -17,6 +17,17 @@ var realOrder = []string{"compile (loader, linker, scopes, constants, services)"
 var stubOrder = []string{"Go map iteration order -> seeded permutation at every range-over-map site of the code under test (MapSeq) and at reflect MapKeys", "file system -> in-memory compile.FS (C07) / private tmpfs directory (C10, C20)"}
 
 var specs = map[string]Spec{
+	"C20": {
+		Prop: "C20", Engine: "order-world", Level: "exploration", Binary: "tb",
+		Quick:    Tier{Count: 20000, BudgetS: 45},
+		Thorough: Tier{Count: 1500000, BudgetS: 1200},
+		Rule: "one run = a seeded base program (1-3 files in nested directories: services, structs/unions/exceptions, typedefs, enums, constants, includes) and an edit script of 0-5 edits drawn from 5 breaking kinds (remove service, remove method, add required field, optional to required, change a field's declared type) and 14 compatible kinds (add optional field / method / service / type / constant / include / file, delete struct / file, reorder definitions / fields, change default, rename field, required to optional), every version compilable; both versions are committed to a scratch git repository (go-git, fixed author and time) and cmd/thriftbreak's run() is executed N times (4 quick, 12 thorough), alternating readable and JSON output, each under another seeded map-iteration order of internal/compare and compile; oracles: reported set equals the reference model's (progen.Breaking), attributed to the right file, error iff diagnostics, nothing for identical or compatible versions, same set in every schedule and output mode. " +
+			"Every run is non-trivial; distinct = distinct choice lists.",
+		RealComp: realOrder, StubComp: append([]string{"git repository -> real go-git repository on a private tmpfs directory, built by the harness with a fixed commit time"}, stubOrder...),
+		Assume: []string{"file renames are not generated (go-git's rename detection changes what 'the same file' means); a script contains at most one of add-file / delete-file",
+			"a type change always changes the bare type name (the linter compares names without include qualifier)", "edits that would leave HEAD uncompilable are rolled back: the tool then exits with a compile error, which is outside the property",
+			"a reported line matches an expected diagnostic by file and by the quoted names at the start of its message, not by its wording"},
+	},
 	"C10": {
 		Prop: "C10", Engine: "order-world", Level: "exploration", Binary: "root",
 		Quick:    Tier{Count: 2400, BudgetS: 50},
